@@ -10,6 +10,7 @@ import (
 	"net/url"
 	"strings"
 	"testing"
+	"unicode/utf8"
 
 	"github.com/go-openapi/spec"
 	"pgregory.net/rapid"
@@ -285,5 +286,27 @@ func TestReplayC12(t *testing.T) {
 			return &vstat.Failure{Atoms: []vstat.Atom{{Kind: "HARNESS", Detail: err.Error()}}}
 		}
 		return oracleC12(c)
+	})
+}
+
+// FuzzC12: byte-level campaign over the reference text (thorough tier).
+func FuzzC12(f *testing.F) {
+	for _, s := range []string{"a/b.json#/definitions/x", "../x/./y.json", "/abs/%41.json", "http://o.example/a/../y.json#/definitions/x", "é/c%20d/..//z.json", "#/definitions/x", ""} {
+		f.Add(s, uint8(1))
+	}
+	f.Fuzz(func(t *testing.T, ref string, which uint8) {
+		if !utf8.ValidString(ref) || strings.ContainsAny(ref, "\\ \t\r\n") || c12Excluded(ref) || len(ref) > 200 {
+			return
+		}
+		u, err := url.Parse(ref)
+		if err != nil || u.User != nil || u.Opaque != "" || (u.Scheme != "" && u.Scheme != "http" && u.Scheme != "https" && u.Scheme != "file") || (u.Scheme != "" && u.Host == "" && u.Scheme != "file") {
+			return
+		}
+		if strings.Contains(u.Path, "//") || strings.HasPrefix(ref, "//") || !c13Host.MatchString(u.Host) || strings.ContainsAny(u.Host, "[]%") {
+			return // duplicate slashes are collapsed by the reference canonicaliser (C13), network-path references are not in the statement
+		}
+		c := c12Case{Base: c12Bases[int(which)%len(c12Bases)], Ref: ref, Via: []string{"resolve", "expand", "chain"}[int(which/8)%3]}
+		rec("C12").Eval()
+		verdict(t, "C12", "fuzz", c, oracleC12(c))
 	})
 }
